@@ -2226,12 +2226,11 @@ def check_every_symbol_watched(ck, R):
         fa = FA(ck, m)
         res = fa.fi.params[1] if len(fa.fi.params) > 1 else "result"
         adds = fa.nodes_all([c for c in fa.calls("add") if A.norm(A.call_recv(c)) == res])
-        allowed = []
-        for r in fa.returns():
-            cj = fa.conditions(r)
-            if cj is not None and cj and all(any(l[0] == "self in %s" % res and l[1] for l in conj) for conj in cj):
-                allowed += fa.nodes(r)
-        p2 = fa.cfg.path(fa.cfg.entry, fa.cfg.exit, removed=set(adds) | set(allowed))
+        # the way out on which the rule found itself accounted for already (`self in result`) needs no addition, whatever
+        # the shape of the test (guard clause with an early return, or the rest of the body nested under its negation)
+        from .cache_model import branch_filter
+        accounted = branch_filter(fa, lambda t, pol, res=res: pol and t == "self in %s" % res)
+        p2 = fa.cfg.path(fa.cfg.entry, fa.cfg.exit, removed=set(adds), edge_ok=accounted)
         ok2 = p2 is None
         ck.ob(R, fa.key(None, "adds-a-rule-on-every-exit"), ok2, "every exit of %s.collect_transitive_dependencies leaves a rule for the symbol" % cls.name if ok2 else
               "%s.collect_transitive_dependencies can return without adding any rule for its symbol (a function outside the package scope, ...): "
